@@ -309,47 +309,28 @@ def rule_formatter(rep: Report, rid="C18.fmt") -> None:
     eof_guard = r4[0] == "cond" and r4[1] == line and is_const(r4[3], "EOF")
     body = r4[2] if eof_guard else r4
     rep.ob(rid, "the EOF token is listed as 'EOF'", eof_guard, file=fi4.file, line=fi4.node.lineno, function=fi4.qualname, expected="'EOF' if token.eof()", found=fmt(r4, I4)[:200])
-    parts = None
-    if body[0] == "call" and body[1] == ".join" and is_const(body[2][0], "") and body[2][1][0] == "ref":
-        o = I4.obj(body[2][1])
-        if isinstance(o, HList) and all(sg[0] == "e" for sg in o.segs):
-            parts = [sg[1] for sg in o.segs]
     loc = ("attr", tok, "location")
     kwt, kwd, txt, items = ("attr", tok, "matched_keyword_type"), ("attr", tok, "matched_keyword"), ("attr", tok, "matched_text"), ("attr", tok, "matched_items")
+    mtype = ("attr", tok, "matched_type")
+    stringy = lambda x: x in (kwt, kwd, txt, mtype)
+    got = nf.str_nf(I4, body, t4, stringy)
+    # expected normal form: ( line : col ) type : [ ( kwtype ) kw ] / text / col:item,...
     ok = False
-    found = [fmt(p, I4) for p in parts] if parts else fmt(body, I4)[:300]
-    if parts and len(parts) == 11:
-        fixed = parts[0] == const("(") and parts[1] == ("call", "str", (("item", loc, const("line")),), ()) and parts[2] == const(":") \
-            and parts[3] == ("call", "str", (("item", loc, const("column")),), ()) and parts[4] == const(")") and parts[5] == ("attr", tok, "matched_type") \
-            and parts[6] == const(":") and parts[8] == const("/") and parts[10][0] == "call"
-        kwpart = parts[7]
-        okkw = False
-        if kwpart[0] == "cond" and kwpart[1] == kwd and is_const(kwpart[3], "") and kwpart[2][0] == "call" and kwpart[2][1] == ".join" and is_const(kwpart[2][2][0], ""):
-            o = I4.obj(kwpart[2][2][1])
-            if isinstance(o, HList) and [sg[1] for sg in o.segs] == [const("("), ("cond", kwt, kwt, const("")), const(")"), kwd]:
-                okkw = True
-        oktxt = parts[9] == const("/") if False else True
-        # parts: 0 '(' 1 line 2 ':' 3 col 4 ')' 5 type 6 ':' 7 kw 8 '/' 9 text 10 ... -> actually text then '/' then items
-        ok = fixed and okkw
-    # the template has 12 parts: ( line : col ) type : kw / text / items
-    if parts and len(parts) == 12:
-        fixed = parts[0] == const("(") and parts[1] == ("call", "str", (("item", loc, const("line")),), ()) and parts[2] == const(":") \
-            and parts[3] == ("call", "str", (("item", loc, const("column")),), ()) and parts[4] == const(")") and parts[5] == ("attr", tok, "matched_type") \
-            and parts[6] == const(":") and parts[8] == const("/") and parts[9] == ("cond", txt, txt, const("")) and parts[10] == const("/")
-        kwpart = parts[7]
-        okkw = False
-        if kwpart[0] == "cond" and kwpart[1] == kwd and is_const(kwpart[3], "") and kwpart[2][0] == "call" and kwpart[2][1] == ".join" and is_const(kwpart[2][2][0], ""):
-            o = I4.obj(kwpart[2][2][1])
-            if isinstance(o, HList) and [sg[1] for sg in o.segs] == [const("("), ("cond", kwt, kwt, const("")), const(")"), kwd]:
-                okkw = True
+    found = fmt(got, I4)[:400] if got and got[0] != "cat" else [fmt(p_, I4)[:80] for p_ in got[1]]
+    if got[0] == "cat" and len(got[1]) == 12:
+        P_ = got[1]
+        fixed = P_[0] == const("(") and P_[1] == ("call", "str", (("item", loc, const("line")),), ()) and P_[2] == const(":") \
+            and P_[3] == ("call", "str", (("item", loc, const("column")),), ()) and P_[4] == const(")") and P_[5] == mtype and P_[6] == const(":") \
+            and P_[8] == const("/") and P_[9] == ("cond", txt, txt, const("")) and P_[10] == const("/")
+        want_kw = ("cond", kwd, ("cat", (const("("), ("cond", kwt, kwt, const("")), const(")"), kwd)), const(""))
+        okkw = P_[7] == want_kw
         okitems = False
-        it = parts[11]
-        if it[0] == "call" and it[1] == ".join" and is_const(it[2][0], ",") and it[2][1][0] == "ref":
-            segs = nf.list_content(I4, it[2][1], t4)
-            if len(segs) == 1 and segs[0][0] == "loop" and I4.loops[segs[0][1]].get("iter") == items and not I4.loops[segs[0][1]].get("conds"):
-                el = ("elem", segs[0][1])
-                want = ("binop", "Add", ("binop", "Add", ("call", "str", (("item", el, const("column")),), ()), const(":")), ("item", el, const("text")))
-                okitems = segs[0][2] == [("e", want)]
+        it = P_[11]
+        if it[0] == "join" and it[1] == "," and len(it[2]) == 1 and it[2][0][0] == "loop":
+            lid = it[2][0][1]
+            el = ("elem", lid)
+            want = ("cat", (("call", "str", (("item", el, const("column")),), ()), const(":"), ("item", el, const("text"))))
+            okitems = I4.loops[lid].get("iter") == items and not I4.loops[lid].get("conds") and it[2][0][2] == (("e", want),)
         ok = fixed and okkw and okitems
     rep.ob(rid, "a listed line is '(line:column)Kind:(keyword type)keyword/text/col:item,...' built from the token's matched fields", ok,
            file=fi4.file, line=fi4.node.lineno, function=fi4.qualname, expected="(L:C)type:[(kwtype)kw]/text/items", found=found)
